@@ -25,6 +25,10 @@ from vlib import core
 MODES = [("dyn", "probe/start"), ("static", "probe/start-static"), ("spie", "probe/start-spie"),
          # dynamic PIE, tiny-std without the aux/vdso features: the other cfg variant of tiny_start::start::resolve
          ("dyn-noaux", "probe/start-noaux")]
+# further static-PIE link variants (a reduced list of cases each; relocation image judged like "spie"):
+#   spie-rel:  linked by lld with `-z rel` - REL relocations (implicit addends), the other loop of DynSection::relocate
+#   spie-base: linked at image base 0x200000 - link-time addresses are not file offsets
+LINK_VARIANTS = [("spie-rel", "probe/start-spie-rel"), ("spie-base", "probe/start-spie-base")]
 KEYS = [[], [65], [65, 66], [65, 66, 67], [65, 66, 67, 68], [66], [67]]
 # keys that no name can equal: containing '=' or an embedded NUL (only `var` can take the latter: a &UnixStr holds none)
 ODD_KEYS = [[65, 61], [61, 65], [61], [65, 0], [0], [65, 61, 120, 0, 66]]
@@ -681,7 +685,7 @@ def reloc_image(chk, bins):
     from checks import elfparse
     recs, meta = [], []
     for (mode, build), binary in sorted(bins.items()):
-        if mode != "spie":
+        if not mode.startswith("spie"):
             continue
         elf = elfparse.Elf(open(binary, "rb").read())
         rela, rel = elf.rela_table(), elf.rel_table()
@@ -894,7 +898,7 @@ def vdso_lookup(chk, bins):
     target = list(b"__vdso_clock_gettime")
     recs, meta = [], []
     for (mode, build), binary in sorted(bins.items()):
-        if mode == "dyn-noaux":
+        if mode not in ("dyn", "static", "spie"):
             continue
         elf = elfparse.Elf(open(binary, "rb").read())
         sym = next((s for s in elf.symbols(".symtab") if b"VDSO_CLOCK_GET_TIME" in s[0]), None)
@@ -1060,6 +1064,15 @@ def run(tier):
         for rel in (False, True):
             bdir = core.cargo_build(template=tmpl, release=rel)
             bins[(mode, "release" if rel else "debug")] = os.path.join(bdir, "startprobe")
+    not_exercised = {}
+    for mode, tmpl in LINK_VARIANTS:
+        for rel in (False, True):
+            try:
+                bdir = core.cargo_build(template=tmpl, release=rel)
+                bins[(mode, "release" if rel else "debug")] = os.path.join(bdir, "startprobe")
+            except core.ToolError as e:       # e.g. no usable lld: recorded, not fatal
+                not_exercised["%s/%s" % (mode, "release" if rel else "debug")] = str(e)[-300:]
+    chk.extra["link_variants_not_exercised"] = not_exercised
 
     AUX_COUNTS[0] = AUX_COUNTS[1] = 0
     image_future = bg2.submit(lambda: (reloc_image(chk, bins), vdso_lookup(chk, bins)))
@@ -1121,9 +1134,15 @@ def run(tier):
     for i in range(len(envs), len(argvs)):
         cases.append({"argv": argvs[i], "env": [], "keys": KEYS[:2]})
 
+    variant_modes = {m for m, _ in LINK_VARIANTS}
+    # the link variants run the hand-written cases, the leads and every fourth (quick: eighth) generated case
+    step = 8 if quick else 4
+    reduced = [c for i, c in enumerate(cases) if i < len(lead_cases) + len(EXTRA_ENVS) or i % step == 0 or "scripts" in c or len(c["argv"]) > 10]
+
     def work(item):
         (mode, build), binary = item
-        return (mode, build), run_binary(chk, mode, build, binary, cases, tier, stack_every=10 if quick else 25)
+        return (mode, build), run_binary(chk, mode, build, binary, reduced if mode in variant_modes else cases, tier,
+                                         stack_every=10 if quick else 25)
 
     core.log("C07: %d cases per binary, %d binaries (t=%.0fs)" % (len(cases), len(bins), time.time() - chk.t0))
     results = {}
@@ -1190,7 +1209,7 @@ def run(tier):
             return reloc_audit(b)
         except (OSError, ValueError, subprocess.SubprocessError) as e:
             return {"audit_error": str(e)[:200]}
-    chk.extra["relocation_audit"] = {"%s/%s" % k: safe_audit(b) for k, b in sorted(bins.items()) if k[0] == "spie"}
+    chk.extra["relocation_audit"] = {"%s/%s" % k: safe_audit(b) for k, b in sorted(bins.items()) if k[0].startswith("spie")}
     for k, a in chk.extra["relocation_audit"].items():
         if a and a.get("unrelocated_count"):
             core.log("LEAD (not a verdict): %s: %d relocated word(s) of the running static-PIE probe do not hold base + addend: %s" % (
@@ -1200,7 +1219,7 @@ def run(tier):
     chk.extra["execs"] = chk.evaluations
     chk.extra["lookups_judged"] = lookups
     chk.extra["real_initial_stacks_judged"] = stacks
-    chk.extra["link_modes"] = [m for m, _ in MODES]
+    chk.extra["link_modes"] = [m for m, _ in MODES] + sorted({k[0] for k in bins} & {m for m, _ in LINK_VARIANTS})
     chk.rule = ("TLC (StartupGen.tla) enumerates all environment blocks of <= 3 entries over 23 entries (5 names x 4 values incl. '=y', "
                 "'a=b', empty; 3 entries without '='; duplicates and prefix-related names included) - %s - and all 85 argument vectors "
                 "of length <= 3 over {'', 'a', 0xff, 200 bytes}; each block is exec'd (exact vectors, tools/launch) in 3 link modes (+ dynamic PIE "
